@@ -3,7 +3,8 @@
    at the start of each iteration) preserves behaviour: for every program that mentions no continue
    flag (it may contain the flags of the break pass), every terminating run, the lowered program started
    in any store agreeing on the other flags produces the same trace, outcome and decisions, and the final
-   stores agree again.  try/else/finally and with are covered under their exception-free semantics,
+   stores agree again.  raise, try/except/else/finally (handlers included: an exception raised in the body is
+   dispatched to a handler chosen by the next decision) and with are covered,
    including the guard that skips the else clause of a try whose body executed the (lowered) continue;
    `clean` requires finally clauses to contain no break / continue / return.  Proving this case is what
    exposed that the first repair of the try/else defect in /repo (guard on the loop-wide flag) was itself
@@ -40,5 +41,17 @@ Example ex_t_lowered_guards_else : fst (fst (cont_block (cflag 0) 1 false false 
   BCons (SWhile (CUser 1) (BCons (SSet 4 false) (BCons (STry
      (BCons (SIf (CUser 2) (BCons (SSet 4 true) BNil) BNil) (BCons (SIf (CNot 4) (BCons (SAtom 3) BNil) BNil) BNil)) HNil
      (BCons (SIf (CNot 4) (BCons (SAtom 4) BNil) BNil) BNil) (BCons (SAtom 5) BNil)) BNil)) BNil) BNil.
+Proof. vm_compute; reflexivity. Qed.
+(* non-vacuity with exceptions: while t1: try: raise r2  except: (if t3: continue); a4   finally: a5 *)
+Definition ex_h : block :=
+  BCons (SWhile (CUser 1) (BCons (STry (BCons (SRaise 2) BNil)
+     (HCons (BCons (SIf (CUser 3) (BCons SContinue BNil) BNil) (BCons (SAtom 4) BNil)) HNil) BNil (BCons (SAtom 5) BNil)) BNil) BNil) BNil.
+Example ex_h_clean : clean_block ex_h = true.
+Proof. vm_compute; reflexivity. Qed.
+Example ex_h_run : exec_block 40 ex_h (fun _ => false) [1; 0; 1; 1; 0; 0; 0] = ([1; 2; 3; 5; 1; 2; 3; 4; 5; 1], ONormal, (fun _ => false), []).
+Proof. vm_compute; reflexivity. Qed.
+Example ex_h_lowered_run :
+  let '(tr, o, s, d) := exec_block 60 (fst (fst (cont_block (cflag 0) 1 false false ex_h))) (fun _ => false) [1; 0; 1; 1; 0; 0; 0] in (tr, o, d)
+  = ([1; 2; 3; 5; 1; 2; 3; 4; 5; 1], ONormal, []).
 Proof. vm_compute; reflexivity. Qed.
 Print Assumptions continue_lowering_correct.
